@@ -4,6 +4,6 @@ From Tele Require Import Lib.Bytes Lib.Calendar Model.Mode Model.Gating.
 Extraction Language OCaml.
 Extraction "c02_model.ml" parse_mode dir_mode mode_time mode_of asof_of set_mode set_mode_file valid_mode
   trim_space zero_day too_old re_date report_date_raw ready_report future_report upload_ok
-  run exec step spec_uploadable spec_leftover_sendable spec_post_allowed sentinel_involved spec_unknown_begin_ok removed_names uploadable_weeks week_of
+  run run_entry exec step spec_uploadable spec_leftover_sendable spec_post_allowed sentinel_involved spec_unknown_begin_ok removed_names uploadable_weeks week_of
   has_suffix has_prefix beq json_suffix local_prefix lock_suffix m_on m_off m_local
   Z.add Z.mul Z.sub Z.div Z.ltb Z.leb Z.eqb.
